@@ -583,12 +583,24 @@ func (c *VirtualTable) Insert(ctx context.Context, values map[int]interface{}) (
 		new.ColumnValues[colName] = &v1proto.ColumnValue{Value: toSQLiteValue(v)}
 		dbg("SET %d %v=%v\n", i, key, v)
 	}
-	merged := MergeRows(key, ot, old, t, &new, t)
-	err = c.Tree.Root.Set(ctx, t, NewKey(key), merged)
+	st := laterOf(t, ot)
+	merged := MergeRows(key, ot, old, t, &new, st)
+	err = c.Tree.Root.Set(ctx, st, NewKey(key), merged)
 	if err != nil {
 		return 0, fmt.Errorf("set: %w", err)
 	}
 	return 0, nil
+}
+
+// laterOf returns the entry time to store a row at: a statement whose write
+// time is older than the stored entry is still merged column by column, as it
+// would be if it arrived from another writer, instead of being dropped whole
+// by the entry-level last-write-wins of the kv layer.
+func laterOf(t, ot time.Time) time.Time {
+	if ot.After(t) {
+		return ot
+	}
+	return t
 }
 
 func (c *VirtualTable) Update(ctx context.Context, key interface{}, values map[int]interface{}) error {
@@ -619,8 +631,9 @@ func (c *VirtualTable) Update(ctx context.Context, key interface{}, values map[i
 		colName := c.ColumnNameByIndex[i]
 		new.ColumnValues[colName] = ToColumnValue(v)
 	}
-	merged := MergeRows(key, ot, old, t, &new, t)
-	err = c.Tree.Root.Set(ctx, t, NewKey(key), merged)
+	st := laterOf(t, ot)
+	merged := MergeRows(key, ot, old, t, &new, st)
+	err = c.Tree.Root.Set(ctx, st, NewKey(key), merged)
 	if err != nil {
 		return fmt.Errorf("set: %w", err)
 	}
@@ -639,8 +652,9 @@ func (c *VirtualTable) Delete(ctx context.Context, key interface{}) error {
 	}
 	t := updateTime(ctx)
 	new.Deleted = true
-	merged := MergeRows(key, ot, old, t, &new, t)
-	err = c.Tree.Root.Set(ctx, t, NewKey(key), merged)
+	st := laterOf(t, ot)
+	merged := MergeRows(key, ot, old, t, &new, st)
+	err = c.Tree.Root.Set(ctx, st, NewKey(key), merged)
 	if err != nil {
 		return fmt.Errorf("set: %w", err)
 	}
